@@ -156,6 +156,31 @@ def run(ctx):
                 if rows_of(v) != want:
                     ctx.spec_fail('cache|abandoned-pass-truncates', 'cache(): after an abandoned pass a full pass does not yield the wrapped table',
                                   {'table': repr(T), 'n': k})
+            # cache(): every iterator over the view yields the wrapped table, also when two of them take turns
+            for k in (None, 2, len(T) + 1):
+                for pat in ((1, 1), (2, 1), (1, 2), (3, 1), (1, 3)):
+                    v = etl.wrap(T).cache(k)
+                    a = iter(v)
+                    got_a = [next(a, 'END') for _ in range(2)]
+                    b = iter(v)
+                    got_b = []
+                    done_a = done_b = False
+                    while not (done_a and done_b):
+                        for _ in range(pat[0]):
+                            x = next(a, 'END')
+                            got_a.append(x)
+                            done_a = done_a or x == 'END'
+                        for _ in range(pat[1]):
+                            x = next(b, 'END')
+                            got_b.append(x)
+                            done_b = done_b or x == 'END'
+                    ra = [tuple(r) for r in got_a if r != 'END']
+                    rb = [tuple(r) for r in got_b if r != 'END']
+                    ctx.case(('cache', 'two-iterators', repr(T), k, pat) if nt else None)
+                    ctx.count('view:cache-two-iterators')
+                    if ra != want or rb != want or rows_of(v) != want:
+                        ctx.spec_fail('cache|rows|two-iterators', 'cache(n=%s): two iterators taking turns do not both yield the wrapped table' % k,
+                                      {'table': repr(T), 'n': k, 'turns': pat, 'first': repr(ra), 'second': repr(rb)})
     finally:
         shutil.rmtree(tmpd, ignore_errors=True)
 
